@@ -20,7 +20,7 @@ class Gen:
         self.r = rng
         self.family = family
         self.feats = tuple(feats)
-        self.lines = [feat_line(self.feats)]
+        self.lines = [feat_line(self.feats)] + (["mode realtime"] if family == "block" else [])
         self.nact = 0
         self.strong = {}   # slot -> actor (believed strong)
         self.weak = {}
@@ -42,9 +42,9 @@ class Gen:
     def spawn(self, cap=None, auto=None):
         r = self.r
         if cap is None:
-            cap = r.choice([1, 1, 2, 2, 3]) if self.family != "time" else r.choice([1, 1, 1, 2])
+            cap = r.choice([1, 1, 2, 2, 3]) if self.family not in ("time", "block") else r.choice([1, 1, 1, 2])
         if auto is None:
-            auto = r.random() < (0.6 if self.family != "time" else 0.3)
+            auto = r.random() < (0.6 if self.family not in ("time", "block") else 0.3)
         self.emit(f"spawn {cap} {1 if auto else 0}")
         if cap > 0:
             self.strong[self.nact] = self.nact
@@ -57,6 +57,8 @@ class Gen:
         return self.r.choice(list(self.strong))
 
     def tmo(self):
+        if self.family == "block":
+            return self.r.choice(["-", "-", "1", "1", "2", "0"])
         if self.family in ("time",) or self.r.random() < 0.1:
             return self.r.choice(["-", "0", "1", "1", "2", "3"])
         return "-"
@@ -84,7 +86,12 @@ class Gen:
             k = r.choice(["tell", "tell", "ask", "ask", "stop"] if r.random() < 0.25 else ["tell", "tell", "ask"])
             o = self.new_oid()
             t = self.tmo() if k != "stop" else "-"
-            self.emit(f"op {o} {k} {self.pick_strong(hostile)} {t}")
+            fl = ""
+            if fam == "block" and k != "stop":
+                fl = " " + r.choice(["b", "b", "s", "d", "b"] + (["i"] if t != "-" else []))
+                if r.random() < 0.25:
+                    fl = ""
+            self.emit(f"op {o} {k} {self.pick_strong(hostile)} {t}{fl}")
             self.ops.append(o)
         elif x < 0.52:
             it = self.hook_outcome(fault)
@@ -131,8 +138,12 @@ class Gen:
                 self.emit(f"upgrade {s} {d}")
                 self.strong[d] = self.weak[s]
         elif x < 0.95:
-            self.emit(f"advance {r.choice([1, 1, 1, 2])}")
-        elif x < 0.97 and self.ops:
+            if fam == "block":
+                if self.stats.get("advance", 0) < 2:
+                    self.emit("advance 1")
+            else:
+                self.emit(f"advance {r.choice([1, 1, 1, 2])}")
+        elif x < 0.97 and self.ops and fam != "block":
             self.emit(f"abort {r.choice(self.ops)}")
         else:
             self.emit(f"hook {a} {self.hook_outcome(fault)}")
@@ -169,13 +180,13 @@ class Gen:
                     self.emit(f"hook {a} {self.hook_outcome(self.family in ('fault', 'multi'))}")
             for a in range(self.nact):
                 self.emit(f"auto {a} 1")
-        self.emit("advance 4")
+        self.emit("advance 2" if self.family == "block" else "advance 4")
 
 
 def gen_script(seed, family, length=None, feats=()):
     rng = random.Random(seed)
     g = Gen(rng, family, feats)
-    n = length or rng.randrange(8, 30)
+    n = length or (rng.randrange(6, 12) if family == "block" else rng.randrange(8, 30))
     if family == "multi":
         for _ in range(rng.choice([2, 2, 3, 4])):
             g.spawn(auto=rng.random() < 0.7)
